@@ -109,4 +109,9 @@ theorem log2_lt_of_lt_ten_pow (n : Nat) (h : n < 10 ^ 45000) : n.log2 < LOG2_BOU
   · subst hn; decide
   · exact (Nat.log2_lt hn).2 (Nat.lt_of_lt_of_le h ten_pow_45000_le)
 
+/-- symbolic evaluation of `ilog10` from a known bit length (keeps `Nat.log2` of huge literals away from the kernel) -/
+theorem ilog10_eval (n L : Nat) (hn : n ≠ 0) (hL : n.log2 = L) :
+    ilog10 n = if 10 ^ (L * 1233 / 4096 + 1) ≤ n then L * 1233 / 4096 + 1 else L * 1233 / 4096 := by
+  subst hL; unfold ilog10 pow10; rw [if_neg hn]
+
 end Demeter.Numerics
